@@ -243,22 +243,38 @@ def resolve_elem(func, expr):
     return expr
 
 
-def straightline_value(cfgnode, name, limit=12):
-    """value most recently bound to ``name`` on the straight-line code leading to a CFG node (walks back while there
-    is a single non-exceptional predecessor); None when no such binding is found"""
-    n = cfgnode
-    for _ in range(limit):
-        preds = [p for p, lab in n.pred if lab != "exc"]
-        if len(preds) != 1:
+def straightline_value(cfgnode, name, limit=400):
+    """value of the unique binding of ``name`` that reaches a CFG node (backward search over all non-exceptional
+    predecessors; the search stops at bindings of the name); None when there is none, more than one, or a path from
+    the entry without a binding"""
+    found = []
+    seen = set()
+    stack = [p for p, lab in cfgnode.pred if lab != "exc"]
+    steps = 0
+    while stack:
+        n = stack.pop()
+        if n.id in seen:
+            continue
+        seen.add(n.id)
+        steps += 1
+        if steps > limit:
             return None
-        n = preds[0]
         a = n.ast
         if n.kind == "stmt" and isinstance(a, ast.Assign) and len(a.targets) == 1 and isinstance(a.targets[0], ast.Name) \
                 and a.targets[0].id == name:
-            return a.value
-        if n.kind == "stmt" and isinstance(a, (ast.Assign, ast.AugAssign)) and any(
-                isinstance(x, ast.Name) and x.id == name and isinstance(x.ctx, ast.Store) for x in ast.walk(a)):
-            return None
+            if not any(a is f for f in found):
+                found.append(a)
+            continue
+        if n.kind in ("stmt", "fornext", "with") and a is not None and any(
+                isinstance(x, ast.Name) and x.id == name and isinstance(x.ctx, ast.Store)
+                for x in ast.walk(a.target if isinstance(a, ast.For) else a) if not isinstance(a, (ast.If, ast.While, ast.Try))):
+            return None  # some other binding form
+        preds = [p for p, lab in n.pred if lab != "exc"]
+        if not preds:
+            return None  # reached the entry: unbound (or a parameter) on that path
+        stack.extend(preds)
+    if len(found) == 1:
+        return found[0].value
     return None
 
 
